@@ -86,6 +86,23 @@ def r08_1(prog, rule, anchors):
                              "ends at the first member, members after it are never validated", e["line"])
         if n == 0:
             rule.ok(f, "no-return-in-loop", "no return inside the member loop", f.line)
+        # the walk visits every index: the variable that subscripts the member table advances by exactly one per iteration
+        # (the decoders' `edx += elm->optional` fast-forward over a run of OPTIONALs has no place in a validator)
+        idx_vars = set()
+        for b, i, e in f.events("subscript"):
+            if any(x[0] == "member" and x[2] in ("elements", "array") for x in walk(e["basex"]["tree"])):
+                it = strip_casts(e["index"]["tree"])
+                if is_var(it):
+                    idx_vars.add(it[1])
+        for v in sorted(idx_vars):
+            steps = [(b, i, e) for b, i, e in f.events("assign") if e.get("base_id") == v and e.get("lhs") == e.get("base") and not e.get("deref")]
+            jumps = [e for b, i, e in steps if e.get("op") in ("+=", "-=") or (e.get("op") == "=" and const_of(e["rhs"]["tree"]) is None)]
+            key = "step:%s" % v.split("@")[0]
+            if jumps:
+                rule.bad(f, key, "the member index `%s` is changed by `%s %s %s` inside the walk: members are skipped without being "
+                                 "validated" % (v.split("@")[0], jumps[0]["lhs"], jumps[0]["op"], jumps[0].get("rhs", {}).get("text", "")), jumps[0]["line"])
+            else:
+                rule.ok(f, key, "the member index only starts at a constant and steps by one", f.line)
 
 
 def r08_2(prog, rule):
